@@ -2,7 +2,7 @@
 import itertools
 
 from mc import kernel
-from mc.report import Violation
+from mc.report import Violation, Lookalike
 from props.worldlib import WorldDriver
 
 import desper
@@ -32,9 +32,10 @@ def drivers(tier):
             dict(max_states=250000, time_budget=240))
         # a lifecycle callback that itself disables dispatching
         d['callback-disables'] = (WorldDriver(
-            'callback-disables', own='L', types=('H', 'HZ'), ids=(1,),
+            'callback-disables', own='L', types=('H', 'HZ', 'HY'), ids=(1,),
             explicit_ids=(1,), max_autos=1, toggles=True, max_postponed=2,
-            shapes=((), ('H',), ('HZ',), ('H', 'HZ'), ('HZ', 'H')),
+            shapes=((), ('H',), ('HZ',), ('H', 'HZ'), ('HZ', 'H'), ('HY',),
+                    ('H', 'HY'), ('HY', 'H')),
             coarse=False),
             dict(max_states=250000, time_budget=240))
         # a one-shot handler that detaches itself from inside its on_add
@@ -52,9 +53,11 @@ def drivers(tier):
             coarse=False),
             dict(max_states=600000, time_budget=1200))
         d['callback-disables'] = (WorldDriver(
-            'callback-disables', own='L', types=('H', 'HZ'), ids=(1, 2),
-            explicit_ids=(1,), max_autos=1, toggles=True, max_postponed=2,
-            shapes=((), ('H',), ('HZ',), ('H', 'HZ'), ('HZ', 'H')),
+            'callback-disables', own='L', types=('H', 'HZ', 'HY'),
+            ids=(1, 2), explicit_ids=(1,), max_autos=1, toggles=True,
+            max_postponed=2,
+            shapes=((), ('H',), ('HZ',), ('H', 'HZ'), ('HZ', 'H'), ('HY',),
+                    ('H', 'HY'), ('HY', 'H')),
             coarse=False),
             dict(max_states=600000, time_budget=1200))
         d['toggle-fixpoint'] = (WorldDriver(
@@ -74,7 +77,7 @@ def drivers(tier):
 
 
 # -- E2: faults injected while postponed lifecycle callbacks are released ----
-class Stop(Exception):
+class Stop(Lookalike):
     """Stands for Quit / SwitchWorld raised from a lifecycle callback."""
 
 
